@@ -71,7 +71,7 @@ def frame_obligations(rep, an):
                 rep.ob(f"{tag} {key[1]}: function exists", "unsupported", "E3", 0, key[0], "frame", "not found (renamed?)")
                 continue
             eff = an.effects[key]
-            rep.functions.add(f"{an.modules[key[0]].path.relative_to('/repo')}:{eff.lineno} {key[1]}")
+            rep.functions.add(f"{an.modules[key[0]].path.relative_to(venv.REPO)}:{eff.lineno} {key[1]}")
             bw = bad_writes(eff)
             name = f"{tag} {key[1]} assigns nothing outside fresh objects"
             detail = "; ".join(f"{w} ({', '.join(sites(eff, w))})" for w in bw)
@@ -283,7 +283,7 @@ def run(tier="quick", seed=0, jobs=16):
                        "no monkey-patching of the package between calls; the JAX back end (aggregation_jax, USE_JAX) is out of scope",
                        "determinism of numpy / pandas / dags themselves", ASSUMPTIONS["T"]]
     rep.trusted = ["vt/frame.py abstract domain (param / global / fresh / unknown; self + 2-level reach)", "CPython semantics of assignment and argument passing"]
-    an = frame.Analyzer("/repo/src/_gettsim")
+    an = frame.Analyzer(str(venv.SRC))
     frame_obligations(rep, an)
     determinism_census(rep, an)
     bad = bounded_histories(rep, seed)
